@@ -1141,6 +1141,8 @@ mzd_t *mzd_transpose(mzd_t *DST, mzd_t const *A) {
 }
 
 mzd_t *mzd_mul_naive(mzd_t *C, mzd_t const *A, mzd_t const *B) {
+  if (A->ncols != B->nrows)
+    m4ri_die("mzd_mul_naive: A ncols (%d) need to match B nrows (%d).\n", A->ncols, B->nrows);
   if (C == NULL) {
     C = mzd_init(A->nrows, B->ncols);
   } else {
@@ -1159,6 +1161,8 @@ mzd_t *mzd_mul_naive(mzd_t *C, mzd_t const *A, mzd_t const *B) {
 }
 
 mzd_t *mzd_addmul_naive(mzd_t *C, mzd_t const *A, mzd_t const *B) {
+  if (A->ncols != B->nrows)
+    m4ri_die("mzd_addmul_naive: A ncols (%d) need to match B nrows (%d).\n", A->ncols, B->nrows);
   if (C->nrows != A->nrows || C->ncols != B->ncols) {
     m4ri_die("mzd_addmul_naive: Provided return matrix has wrong dimensions.\n");
   }
